@@ -235,7 +235,8 @@ def check_C05(tier, seed):
 def check_C03(tier, seed):
     v = Verdict("C03", tier, seed)
     exe = build_driver("asan")
-    run_lex(v, exe, cfgs(tier, ["lex_dq_quick.cfg", "lex_dqesc_quick.cfg", "lex_sq_quick.cfg", "lex_comment_quick.cfg"],
+    run_lex(v, exe, cfgs(tier, ["lex_dq_quick.cfg", "lex_dqesc_quick.cfg", "lex_sq_quick.cfg", "lex_comment_quick.cfg",
+                                "lex_dqenv_quick.cfg", "lex_env_quick.cfg"],
                          ["lex_dq_thorough.cfg", "lex_sq_thorough.cfg"]), seed, "C03")
     v.cov["exhaustive"] = True
     return v.finish(rule="every byte string up to the length bound over the class representatives of each start condition "
@@ -356,7 +357,71 @@ def check_C08(tier, seed):
                          "other contexts must not change; plus every pair of short texts parsed one after the other into one context")
 
 
-CHECKS = {"C08": check_C08, "C17": check_C17, "C13": check_C13, "C01": check_C01, "C02": check_C02, "C03": check_C03, "C04": check_C04, "C05": check_C05, "C06": check_C06,
+def check_C16(tier, seed):
+    v = Verdict("C16", tier, seed)
+    exe = build_driver("asan")
+    from . import owncheck
+    c = "own_thorough.cfg" if tier == "thorough" else "own_quick.cfg"
+    res = run_tlc("MC_Own.tla", os.path.join("mc", c))
+    v.add_tlc(c, res, ["P_C16_Solo", "P_C16_NoCrossTalk", "P_C16_Siblings"])
+    for e in res.errors:
+        if "is violated" in e:
+            v.violation("spec:%s" % e[:60], "TLC: %s" % e, {})
+    owncheck.replay(v, exe, res, seed=seed, tag="C16")
+    v.cov["exhaustive"] = True
+    return v.finish(rule="every interleaving up to the bound of operations on two contexts created from the same declarations (parse creating "
+                         "nested multi-section instances, free-form keys, assignments and appends; setters; annotation; titled add/remove; "
+                         "callback registration on an option and on a section template; writes into one of two sibling instances), with the "
+                         "caller's declaration arrays and strings overwritten with 0xA5 and freed right after the second cfg_init (ASan reports "
+                         "any later read); both trees compared with the specification after every step")
+
+
+def check_C18(tier, seed):
+    v = Verdict("C18", tier, seed)
+    exe = build_driver("asan")
+    from . import oomcheck
+    from .render import schema_lines as sl
+    W = []
+    schemas = {}
+    for c in ["api_depth1.cfg", "api_depth1_nopre.cfg"]:
+        res = tlc_api(v, c)
+        W += oomcheck.api_workloads(res, c.split(".")[0])
+        schemas["api"] = sl("S", res.schemas[1])
+    lim = 12 if tier == "quick" else 60
+    for c, invs in (("C07_titles.cfg", INV_PARSE[2:]), ("C05_parse_quick.cfg", INV_PARSE), ("callbacks_quick.cfg", INV_CB)):
+        res = tlc_parse(v, c, invs)
+        W += oomcheck.parse_workloads(res, c.split(".")[0], lim)
+        for sid, sch in res.schemas.items():
+            schemas["%s-%d" % (c.split(".")[0], sid)] = sl("S", sch)
+    res = run_tlc("MC_Inc.tla", os.path.join("mc", "inc_quick.cfg"))
+    v.add_tlc("inc_quick.cfg", res, ["P_C13_Flatten"])
+    W += oomcheck.parse_workloads(res, "inc", lim)
+    W += oomcheck.misc_workloads(schemas)
+    counts = oomcheck.sweep(v, exe, W, tag="C18")
+    # entry point coverage report
+    used = set()
+    for w in W:
+        for cmdline in w.setup + [w.target]:
+            used.update(oomcheck.API_OF.get(cmdline.split(" ")[0], []))
+        if "include" in w.target or "include" in " ".join(w.setup):
+            used.add("cfg_include")
+    eps = oomcheck.entry_points()
+    v.cov["entry_points_total"] = len(eps)
+    v.cov["entry_points_in_workloads"] = len(eps & used)
+    v.cov["entry_points_not_in_workloads"] = sorted(eps - used)
+    v.cov["workloads"] = len(W)
+    v.cov["exhaustive"] = True
+    return v.finish(level="fault_enumeration",
+                    rule="workloads = behaviours of the specification (every successful API transition of MC_Api from the initial and a "
+                         "parsed state; the longest accepted and rejected texts of the parser, callback and include models; cfg_init for "
+                         "every schema; search path, tilde, file parse, include, annotation, by-path lookups, print); for each workload and "
+                         "every k up to the number of allocation requests confuse.c issues during the target call, the k-th request fails "
+                         "(exhaustive over k); non-trivial = runs in which the injected failure was actually reached; oracle: the process "
+                         "survives (ASan/UBSan clean), the call returns success with the specification's complete post-state or a failure "
+                         "code, the context prints and frees, live blocks / descriptors / include stack return to their start values")
+
+
+CHECKS = {"C18": check_C18, "C16": check_C16, "C08": check_C08, "C17": check_C17, "C13": check_C13, "C01": check_C01, "C02": check_C02, "C03": check_C03, "C04": check_C04, "C05": check_C05, "C06": check_C06,
           "C07": check_C07, "C09": check_C09, "C10": check_C10, "C11": check_C11, "C12": check_C12, "C14": check_C14,
           "C15": check_C15, "C19": check_C19}
 
